@@ -351,3 +351,16 @@ PROPS["C17"]["kani"].append(_L8)
 PROPS["C10"]["kani"].append(_L8)
 PROPS["C11"]["mir"].append(ob("open_flags_positional_c11", "ob_file", "open_flags_positional"))
 PROPS["C07"]["mir"].append(ob("open_flags_positional", "ob_file", "open_flags_positional"))
+
+# --- round 3 of seeded changes: obligations added or shared with the property the change was written against
+PROPS["C02"]["kani"].append(PROPS["C01"]["kani"][1])      # c01_latest_pair_ts: backs contains() in the duplicate-write guard and read_with
+PROPS["C02"]["mir"].append(ob("push_step_c02", "ob_index", "push_step", kwargs={"L": 5}, thorough_kwargs={"L": 6}))
+PROPS["C04"]["mir"].append(ob("blob_delete_c04", "ob_blob", "blob_delete"))
+PROPS["C06"]["mir"] += [ob("read_exact_passes_through", "ob_file", "read_exact_passes_through"),
+                        ob("header_read_classified", "ob_record", "header_read_classified")]
+PROPS["C03"]["mir"].append(ob("read_exact_passes_through_c03", "ob_file", "read_exact_passes_through"))
+PROPS["C10"]["mir"] += [ob("option_filter_merge", "ob_filters", "option_filter_merge"),
+                        ob("combined_filter_merge", "ob_filters", "combined_filter_merge"),
+                        ob("bloom_ctor_invariant", "ob_bloom", "bloom_ctor_invariant")]
+PROPS["C11"]["mir"] += [ob("dump_order_c11", "ob_blob", "dump_order"), ob("delete_core_sum_c11", "ob_delete", "delete_core_sum")]
+PROPS["C13"]["mir"].append(ob("send_msg_delivers", "ob_worker", "send_msg_delivers"))
